@@ -159,6 +159,7 @@ package goat
 //@   inv[C16.clients_wellformed C17.clients_wellformed] forall k String :: k in self.clients ==> self.clients[k] != nil && self.clients[k].fromServer != nil && self.clients[k].id == k
 
 //@ func goat.(*Proxy).addOutgoingConnectionLocked
+//@   inline
 //@   holds goat.Proxy.mutex
 //@   nopanic[C16.nopanic C17.nopanic]
 //@   makechan 0 tag 0
